@@ -8,59 +8,6 @@ from vlib.framework import Check, Outcome
 from vlib.sf import Crash
 
 
-def seq_diff(tree_toks, relexed):
-    """First disagreement between tree leaves and relexed tokens.
-
-    Returns None, or (kind, tree_leaves_involved, relexed_tokens_involved) where kind is
-      merge  - several leaves are lexed as fewer tokens (boundaries lost)
-      split  - fewer leaves are lexed as more tokens
-      shift  - same text, boundaries moved without a simple merge/split
-      retype - same boundaries, another coarse kind (whitespace/newline/comment/code)
-      text   - the two sequences do not even spell the same text
-    """
-    n = min(len(tree_toks), len(relexed))
-    i = 0
-    while i < n and tree_toks[i][0] == relexed[i][0]:
-        if tree_toks[i][1] != relexed[i][1]:
-            return "retype", [tree_toks[i]], [relexed[i]]
-        i += 1
-    if i == len(tree_toks) and i == len(relexed):
-        return None
-    # re-synchronise: extend both sides until the accumulated text is equal
-    a, b = i, i
-    sa, sb = "", ""
-    while True:
-        if len(sa) <= len(sb) and a < len(tree_toks):
-            sa += tree_toks[a][0]
-            a += 1
-        elif b < len(relexed):
-            sb += relexed[b][0]
-            b += 1
-        elif a < len(tree_toks):
-            sa += tree_toks[a][0]
-            a += 1
-        else:
-            break
-        if sa == sb and sa:
-            break
-        if not (sa.startswith(sb) or sb.startswith(sa)):
-            return "text", tree_toks[i:a], relexed[i:b]
-    if sa != sb:
-        return "text", tree_toks[i:a], relexed[i:b]
-    ta, tb = tree_toks[i:a], relexed[i:b]
-    if len(tb) == 1 and len(ta) > 1:
-        kind = "merge"
-    elif len(ta) == 1 and len(tb) > 1:
-        kind = "split"
-    elif len(ta) > len(tb):
-        kind = "merge"
-    elif len(ta) < len(tb):
-        kind = "split"
-    else:
-        kind = "shift"
-    return kind, ta, tb
-
-
 def adjacency(tokens):
     """Counter of (left code raw, right code raw, touching?) over consecutive code tokens."""
     out = Counter()
@@ -107,12 +54,12 @@ class C12(Check):
 
     def selftest(self):
         t = lambda *raws: [(r, "whitespace" if r.isspace() else "code", "x") for r in raws]
-        assert seq_diff(t("a", " ", "b"), t("a", " ", "b")) is None
-        assert seq_diff(t("-", "-", "1"), [("--1", "comment", "c")])[0] == "merge"
-        assert seq_diff(t("a", "b"), t("ab"))[0] == "merge"
-        assert seq_diff(t("||"), t("|", "|"))[0] == "split"
-        assert seq_diff(t("a", " ", "b"), t("a", " ", "c"))[0] == "text"
-        assert seq_diff([("x", "code", "w")], [("x", "comment", "c")])[0] == "retype"
+        assert fixlib.seq_diff(t("a", " ", "b"), t("a", " ", "b")) is None
+        assert fixlib.seq_diff(t("-", "-", "1"), [("--1", "comment", "c")])[0] == "merge"
+        assert fixlib.seq_diff(t("a", "b"), t("ab"))[0] == "merge"
+        assert fixlib.seq_diff(t("||"), t("|", "|"))[0] == "split"
+        assert fixlib.seq_diff(t("a", " ", "b"), t("a", " ", "c"))[0] == "text"
+        assert fixlib.seq_diff([("x", "code", "w")], [("x", "comment", "c")])[0] == "retype"
         assert gap_changed(t("a", " ", "+", "b"), t("a", "+", "b"))
         assert not gap_changed(t("a", " ", "+", "b"), t("a", "  ", "+", "b"))
         from sqlfluff.core.rules import get_ruleset
@@ -149,7 +96,7 @@ class C12(Check):
         if isinstance(rl, Crash):
             run.excluded = "crash(C04):" + rl.type
             return run, None
-        return run, seq_diff(run.tree_tokens(), rl[0])
+        return run, fixlib.seq_diff(run.tree_tokens(), rl[0])
 
     def run_case(self, case):
         out = Outcome(labels=fixlib.base_labels(case))
@@ -169,7 +116,7 @@ class C12(Check):
                      kind="tree-raw-vs-fixed-source")
             return out
         before = fixlib.relex(run.sql, run.config)
-        if not isinstance(before, Crash) and gap_changed(before[0], run.relexed()[0]):
+        if not isinstance(before, Crash) and gap_changed(before[0], run.tree_tokens()):
             out.nontrivial = True
             out.label("gap-opened-or-closed")
         if diff is None:
